@@ -58,7 +58,8 @@ fn schedule_name(kind: u64) -> &'static str {
         1 => "bursts",
         2 => "random",
         3 => "one-starved",
-        _ => "random-with-foreign-calls",
+        4 => "random-with-foreign-calls",
+        _ => "reused-storage",
     }
 }
 
@@ -67,9 +68,13 @@ fn run_schedule(seed: u64, index: u64, report: &mut Report) {
     let mut rng = Rng::derive(seed, "c15-schedule", index);
     let k = 2 + rng.usize_below(11);
     let units = make_units(&mut rng, k);
-    let kind = rng.below(5);
+    let kind = rng.below(6);
     report.evaluations += 1;
     report.count(&format!("schedules_{}", schedule_name(kind)), 1);
+    if kind == 5 {
+        run_reused_storage(seed, index, &mut rng, report);
+        return;
+    }
     // solo sequences first
     let solos: Vec<Result<Vec<TraceKey>, String>> = units
         .iter()
@@ -160,6 +165,113 @@ fn run_schedule(seed: u64, index: u64, report: &mut Report) {
                         }
                     }
                     Err(p) => report.violate(format!("schedule:{}:{}:solo-panic", seed, index), format!("solo run panicked: {}", p), case()),
+                }
+            }
+        }
+    }
+}
+
+/// Evaluators built one after the other from ONE board and ONE `Vec<HandRange>` whose elements
+/// are overwritten in place between constructions (same address, same length, new contents), or
+/// dropped and re-allocated. Each evaluator must follow the contents it was built from: the
+/// sequence depends only on its own flop, ranges and scope, not on where its inputs lived.
+fn run_reused_storage(seed: u64, index: u64, rng: &mut Rng, report: &mut Report) {
+    let k = 2 + rng.usize_below(5);
+    let flop = textured_flop(rng, index as usize);
+    let board = drive::board_of(&flop);
+    let n_players = 1 + rng.usize_below(3);
+    let cards: Vec<u8> = rng.sample(52, 14).into_iter().map(|c| c as u8).collect();
+    let fresh_range = |rng: &mut Rng| -> HandRange {
+        let size = 1 + rng.usize_below(5);
+        crate::conv::to_hand_range(&clustered_range(rng, &cards, size, WeightMode::Family))
+    };
+    let mut players: Vec<HandRange> = (0..n_players).map(|_| fresh_range(rng)).collect();
+    let case = || Json::obj().set("kind", Json::str("schedule")).set("seed", Json::Int(seed as i128)).set("index", Json::Int(index as i128));
+    let result = catch(|| {
+        let mut snapshots: Vec<(Vec<HandRange>, Scope)> = Vec::new();
+        let mut pending: Vec<Option<espada::evaluator::FlopExhaustiveEvaluator>> = Vec::new();
+        let mut its: Vec<Option<<espada::evaluator::FlopExhaustiveEvaluator as IntoIterator>::IntoIter>> = Vec::new();
+        for i in 0..k {
+            if i > 0 {
+                match rng.below(3) {
+                    0 => {
+                        // overwrite every element in place
+                        for p in players.iter_mut() {
+                            *p = fresh_range(rng);
+                        }
+                    }
+                    1 => {
+                        // overwrite one element in place
+                        let j = rng.usize_below(n_players);
+                        players[j] = fresh_range(rng);
+                    }
+                    _ => {
+                        // drop the vector and allocate a new one of the same shape
+                        players = (0..n_players).map(|_| fresh_range(rng)).collect();
+                    }
+                }
+            }
+            let a = rng.usize_below(POSITIONS - 30);
+            let scope: Scope = (from_linear(a), from_linear(a + 1 + rng.usize_below(30)));
+            let mut e = espada::evaluator::FlopExhaustiveEvaluator::new(&board, &players);
+            e.scope(scope.0 .0, scope.0 .1, scope.1 .0, scope.1 .1);
+            snapshots.push((players.clone(), scope));
+            // half of the evaluators are turned into iterators at once, the others after later mutations
+            if rng.chance(1, 2) {
+                its.push(Some(e.into_iter()));
+                pending.push(None);
+            } else {
+                its.push(None);
+                pending.push(Some(e));
+            }
+        }
+        for i in 0..k {
+            if let Some(e) = pending[i].take() {
+                its[i] = Some(e.into_iter());
+            }
+        }
+        let mut seqs: Vec<Vec<TraceKey>> = vec![Vec::new(); k];
+        let mut live: Vec<usize> = (0..k).collect();
+        let mut steps = 0u64;
+        while !live.is_empty() {
+            let pick = rng.usize_below(live.len());
+            let e = live[pick];
+            steps += 1;
+            match its[e].as_mut().and_then(|it| it.next()) {
+                Some(sd) => seqs[e].push(trace_key(&sd)),
+                None => {
+                    live.remove(pick);
+                }
+            }
+        }
+        // solo runs over deep copies (same iteration order, different storage)
+        let solos: Vec<Vec<TraceKey>> = snapshots
+            .iter()
+            .map(|(ranges, scope)| {
+                let mut e = espada::evaluator::FlopExhaustiveEvaluator::new(&board, ranges);
+                e.scope(scope.0 .0, scope.0 .1, scope.1 .0, scope.1 .1);
+                e.into_iter().map(|sd| trace_key(&sd)).collect()
+            })
+            .collect();
+        (seqs, solos, steps)
+    });
+    match result {
+        Err(p) => report.violate(format!("schedule:{}:{}:panic", seed, index), format!("evaluators built from reused storage panicked: {}", p), case()),
+        Ok((seqs, solos, steps)) => {
+            report.count("next_calls_interleaved", steps);
+            report.note_distinct(mix2(0x5705, mix2(seed, index)));
+            for e in 0..k {
+                report.count("sequences_compared", 1);
+                report.count("showdowns_compared", solos[e].len() as u64);
+                if seqs[e] != solos[e] {
+                    report.violate(
+                        format!("schedule:{}:{}:ev{}", seed, index, e),
+                        format!(
+                            "evaluator {} of {} built from one Vec<HandRange> that was overwritten in place between constructions yields {} showdowns, {} when built from a copy of its own inputs (flop {})",
+                            e, k, seqs[e].len(), solos[e].len(), crate::conv::cards_text(&flop)
+                        ),
+                        case(),
+                    );
                 }
             }
         }
@@ -399,7 +511,7 @@ pub fn run(ctx: &Ctx) -> Report {
         let mut rng = Rng::derive(ctx.seed, "c15-schedule", index);
         let k = 2 + rng.usize_below(11);
         let units = make_units(&mut rng, k);
-        let kind = rng.below(5);
+        let kind = rng.below(6);
         report.sample(
             Json::obj()
                 .set("schedule_index", Json::Int(index as i128))
